@@ -30,6 +30,31 @@ CHECKS = {
   text="Exploration: weakest-reading shape predicates for the 14 constructs the statement names, evaluated on every node of the structural workload. A run that saw fewer than 1000 nodes of any listed kind is inconclusive. Held on the executions observed.",
   note="Trusted: the predicates (DESIGN table C13).",
   ref="DESIGN.md section 6 C13"),
+ "C04": dict(
+  technique="runtime monitor with crash isolation: every entry point (Parse, streaming+Rewrite, Render under all configurations, AppendBlock, Format, Walk, all accessors) executed per input in child processes under panic capture, a per-case CPU-time budget (bounded progress) and an address-space cap; thorough adds a -race/checkptr sanitizer pass",
+  text="Exploration: totality observed on a hostile seeded workload (invalid UTF-8, NUL, lone CR, every spec prefix, pathological nesting up to 16 KiB, prose up to 2 MiB). Liveness is restated as bounded progress (CPU budget >= 100x the worst measured cost); unbounded termination is out of reach for this family. Held on the executions observed.",
+  note="Trusted: the supervisor (child CPU time via getrusage, re-run alone with 4x budget before reporting).",
+  ref="DESIGN.md section 6 C04"),
+ "C08": dict(
+  technique="offline checker over recorded histories: a recording io.Reader logs every Read; the streamed result (blocks, trees, offsets, lines, reference map, terminal error and its stickiness) is compared with a reference execution Parse(delivered bytes); hook conservation invariant after every NextBlock",
+  text="Exploration with exhaustive sub-spaces: all partitions into reads x both EOF styles x every fault point for all strings <= 5 (quick) / 6 (thorough) symbols over a 9-symbol alphabet and for sampled 7-13 byte documents; 8 schedules + fault sweeps on generated documents. Held on the histories observed.",
+  note="Trusted: Parse as the reference execution (C01-C05 judge it independently), my fingerprint of the public API.",
+  ref="DESIGN.md section 6 C08"),
+ "C09": dict(
+  technique="metamorphic runtime monitor: quote(D) and listitem(D, marker, N) are parsed and each contained block, rendered as a root in safe mode, is compared with the corresponding root block of D",
+  text="Exploration: transformers applied to line-structured documents with multi-line inline constructs, tab-free soup, mutated spec documents and an exhaustive small alphabet; 1 quote + 2 list variants per D. Held on the executions observed.",
+  note="Trusted: my transformers (each line prefixed with '> '; list variant only under the stated preconditions) and the thematic-break regexp for the stated exception.",
+  ref="DESIGN.md section 6 C09"),
+ "C14": dict(
+  technique="metamorphic runtime monitor: H(crlf(x)), H(cr(x)) vs H(x); Parse(pad+x) vs Parse(x) on fingerprint, offsets, lines, HTML; safe-mode H(x) vs H(x+LF) modulo layout whitespace",
+  text="Exploration: three relations per input over every spec prefix (documents ending inside every construct), an exhaustive 10-symbol alphabet, line-structured documents, soup and mutated spec documents. Held on the executions observed.",
+  note="Trusted: the layout-whitespace normaliser (weak reading of 'insignificant whitespace', DESIGN C14).",
+  ref="DESIGN.md section 6 C14"),
+ "C16": dict(
+  technique="runtime monitor: every root block is re-parsed alone from its Source (streaming + Rewrite with the document's reference map) and its tree fingerprint compared with the block as parsed in the document",
+  text="Exploration over spec prefixes, exhaustive 13-symbol alphabet strings, line-structured documents, soup and mutations; the stated exception (paragraph/setext continuation of a definition) is skipped and counted. Held on the executions observed.",
+  note="Trusted: fingerprint of the public API; reading of the exception in DESIGN C16.",
+  ref="DESIGN.md section 6 C16"),
 }
 
 NOT_YET = {}
